@@ -27,8 +27,9 @@ def run_shard(spec):
         return st.result()
     rng = random.Random("c01/%d/%d" % (spec["seed"], spec["shard"]))
     quick = spec["tier"] == "quick"
-    for _ in range(4 if quick else 60):
-        st.run_world(rng, cstream.C01_CLASSES, nblocks=rng.choice([8, 14, 22, 30]), ncand=45 if quick else 60)
+    for j in range(4 if quick else 60):
+        world = st.run_world(rng, cstream.C01_CLASSES, nblocks=rng.choice([8, 14, 22, 30]), ncand=45 if quick else 60)
+        st.two_thread_lane(world, rng, 3 if quick else 6)
     for _ in range(1 if quick else 10):       # every candidate the first block above the checkpoint horizon
         st.run_world(rng, cstream.C01_CLASSES, nblocks=rng.choice([8, 14]), ncand=30 if quick else 50, horizon_at_head=True)
     # well-filled blocks (12-21 ordinary transactions) in which ONE transaction breaks a rule
@@ -109,7 +110,8 @@ def finalize(m, tier):
               ("candidates_first_above_horizon", c.get("candidates_first_above_horizon", 0), 200), ("accepted_with_ordinary_tx", c.get("accepted_with_ordinary_tx", 0), 50),
               ("followup_valid_accepted", c.get("followup_valid_accepted", 0), 50),
               ("parents_losing_tip", c.get("parents_losing_tip", 0), 50), ("parents_old", c.get("parents_old", 0), 50),
-              ("node_lane_refused", c.get("node_lane_refused", 0), 60), ("node_lane_restarts", c.get("node_lane_restarts", 0), 6)]
+              ("node_lane_refused", c.get("node_lane_refused", 0), 60), ("node_lane_restarts", c.get("node_lane_restarts", 0), 6),
+              ("two_thread_switch_points", c.get("two_thread_switch_points", 0), 3000)]
     for cls in cstream.C01_CLASSES:
         floors.append(("class " + cls, c.get("by_class", {}).get(cls, 0), 8))
     floors.append(("well-filled blocks (12+ transactions)", sum(v for k, v in c.get("by_class", {}).items() if k.startswith("crowded:")), 40))
